@@ -103,6 +103,7 @@ func configs(thorough bool) []confSpec {
 func part2(r *ev.Run) {
 	r.Assume("Part 2 servers are built in-process exactly as perkeepd does (serverinit.Load of a high-level config + InstallHandlers) and served over loopback TCP; the only change to the generated low-level config is that the index's sorted store is opened by the harness from the same sorted config and passed through, so that its rows can be dumped")
 	r.Assume("credential-requiring auth modes used: userpass:<u>:<p>, basic:<u>:<p>, token:<t>, userpass with vivify=; none has the +localhost option (localhost, devauth and userpass+localhost authenticate loopback clients and are excluded; tailscale needs a network)")
+	r.Assume("the process token of pkg/auth is created lazily and handed out by discovery, the UI and the sync status page; the state 'never handed out yet' exists once per server process, so every Part 2 child starts with a cold-start phase: its first requests are the unauthenticated GET variants that need no knowledge of the token (none, empty/wrong Basic, empty/wrong Token header, Upgrade: websocket with no / an empty / a wrong authtoken) on every protected row, sent one at a time, token-carrying pages (root, ui, sync) last; only then does the harness authenticate, fetch discovery or ask pkg/auth for the token")
 	r.Assume("/debug/vars and /debug/pprof/ report server status (counters, goroutine dumps, command line) and are therefore required to refuse unauthenticated requests like their siblings /debug/goroutines, /debug/config and /debug/logs")
 	r.Assume("publish / scanning-cabinet app handlers need external binaries and cloud storages need a network: not constructible offline, not covered")
 	specs := configs(r.Thorough())
@@ -225,7 +226,9 @@ func part2(r *ev.Run) {
 	r.Require("auth_modes", "userpass", "basic", "token")
 	r.Require("methods", "GET", "HEAD", "POST", "PUT", "DELETE")
 	r.Require("credential_variants", "none", "wrong-basic", "wrong-token", "empty-basic", "wronguser-rightpass", "rightuser-empty-pass", "truncated-token",
-		"ws-upgrade-empty-token", "ws-upgrade-wrong-token")
+		"ws-upgrade-empty-token", "ws-upgrade-wrong-token", "ws-upgrade-no-token", "empty-token-header")
+	r.Require("cold_start", "none", "empty-basic", "empty-token-header", "ws-upgrade-no-token", "ws-upgrade-empty-token", "wrong-basic", "wrong-token", "ws-upgrade-wrong-token")
+	r.Require("cold_start_handler_types", "storage", "search", "jsonsign", "sync", "status", "help", "importer", "ui", "root", "debug")
 	r.Require("handler_types", "root", "status", "help", "jsonsign", "search", "ui", "importer", "sync", "share",
 		"storage-index", "storage-replica", "storage-cond")
 	r.Require("discriminating_endpoints", "storage", "search", "jsonsign", "sync", "status", "help", "importer", "ui", "root", "debug")
